@@ -19,7 +19,8 @@ TECHNIQUE = 'runtime contracts on the ten statistics with pure-Python textbook o
 RULE = ('matrices N in 1..3000 (quick 1..400) x dtypes {u1,u2,u4,u8 big/little endian as loaded, f4, f8} with ties, '
         'constant columns, positive-only columns x container {ndarray, raw sample, RFI sample, MEF sample} x channel '
         'argument {None, position, name, list, single-element list, mixed}; non-trivial = N>=3 and a non-constant '
-        'column; distinct = digest(data, statistic, channel argument)')
+        'column; distinct = digest(data, statistic, channel argument)'
+        ' Also: derived samples (sliced, permuted, copied, pickled, channel-rearranged), samples without events, NaN values, columns with negative values (geometric statistics), requests naming a channel twice, tuple/ndarray request forms.')
 ASSUMPTIONS = ['tolerance rtol 1e-6 (integer/float64 containers), 2e-5 (float32 containers: single-precision reductions are legitimate)',
                'geometric statistics: value judged on strictly positive columns; a column with a negative value or any statistic (except the mode) of a column with a NaN must be NaN; columns with zeros not judged']
 MIN_CHECKS = {'quick': 15000, 'thorough': 300000}
